@@ -192,7 +192,9 @@ CAMPAIGNS.update({
                ex(ph(["read"], False, "same", 0, "b"), ph(["eq", "eqx"])),
                ex(ph(["read"], True, pick=6), ph(["read"], False, "same", 3, "b"), ph(["eq"])),
                ex(ph(["filter", "sort_order", "transpose", "copy", "update_ids"], True, pick=20), ph(["read"], pick=2),
-                  ph(["eq", "eqx"]))],
+                  ph(["eq", "eqx"])),
+               # one operand comes back from a file (JSON / TSV / HDF5 text leaves its own layout and value types behind)
+               ex(ph(["rt_json", "rt_tsv", "rt_hdf5"], False, "same"), ph(["eq", "eqx"], True))],
         thorough=[ex(ph(["read"], True), ph(["read"], True, "same", 0, "b"), ph(["eq"])),
                   ex(ph(["read"], True), ph(["read"], True, "same", 8, "b"), ph(["eqx"], True)),
                   ex(ph(["filter", "sort_order", "transpose", "copy", "update_ids", "add_metadata", "del_metadata"], True),
@@ -211,7 +213,8 @@ CAMPAIGNS.update({
                   ex(ph(["read"], True, pick=10), ph(["read"], True, "same", 0, "b"), ph(["read"], False, "same", 4, "c"),
                      ph(["eq3"]))]),
     "transforms": model_campaign(
-        "transforms", palettes=IDONLY + [["plain", "scale_down"], ["unicode", "scale_up"], ["case_ids", "scale_down"]],
+        "transforms", palettes=IDONLY + [["plain", "scale_down"], ["unicode", "scale_up"], ["case_ids", "scale_down"],
+                                         ["plain", "scale_tiny"]],
         quick=[ex(ph(XFORM, True, "r")),
                ex(ph(LAYOUT, pick=10), ph(XFORM, True, "r", 14)),
                ex(ph(LAYOUT, pick=6), ph(LAYOUT, pick=3), ph(XFORM, True, "r", 5))],
@@ -220,6 +223,7 @@ CAMPAIGNS.update({
     "metadata_updates": model_campaign(
         "metadata_updates", palettes=IDONLY,
         quick=[ex(ph(["add_metadata", "del_metadata"], True)),
+               ex(ph(["add_metadata"], True), ph(["del_metadata"], True, pick=8)),        # delete what was just added
                ex(ph(HIST + ["add_metadata", "del_metadata"], pick=12), ph(["add_metadata", "del_metadata"], True, pick=12)),
                ex(ph(["add_metadata", "del_metadata"], True, pick=10), ph(["add_metadata", "del_metadata"], True, pick=6))],
         thorough=[ex(ph(HIST + ["add_metadata", "del_metadata"]), ph(["add_metadata", "del_metadata"], True)),
@@ -302,7 +306,7 @@ CAMPAIGNS.update({
         thorough=[ex(ph(LAYOUT + ["update_ids", "subsample"]), ph(["rt_hdf5"], True, "r")),
                   ex(ph(LAYOUT), ph(LAYOUT + ["subsample"], pick=6), ph(["rt_hdf5"], True, "r", 6))]),
     "json_roundtrip": model_campaign(
-        "json_roundtrip", palettes=FILEP + [["ctrl", "plain"], ["ctrl", "adversarial"]], heaps="json",
+        "json_roundtrip", palettes=FILEP + [["ctrl", "plain"], ["ctrl", "adversarial"], ["trail", "plain"]], heaps="json",
         quick=[ex(ph(["rt_json"], True, "r")),
                ex(ph(["rt_json", "rt_tsv", "rt_hdf5"], False, "same"), ph(["rt_json"], True, "r", 6)),
                ex(ph(LAYOUT + ["update_ids", "subsample"], pick=10), ph(["rt_json"], True, "r", 6))],
@@ -329,7 +333,7 @@ CAMPAIGNS.update({
         cap_quick=8000, cap_thorough=200000),
         univ={"quick": {"n": 2, "m": 3, "vals": 3, "k": 60}, "thorough": {"n": 2, "m": 3, "vals": 3, "k": 0}}),
     "subset_reads": model_campaign(
-        "subset_reads", palettes=TSVP, heaps="files",     # ID-list files cannot hold IDs with outer blanks
+        "subset_reads", palettes=TSVP + [["trail", "plain"]], heaps="files",     # ID-list files cannot hold IDs with outer blanks
         quick=[ex(ph(["subset_read"], True, "r", 40)),
                ex(ph(LAYOUT, pick=6), ph(["subset_read"], True, "r", 8))],
         thorough=[ex(ph(["subset_read"], True, "r")),
@@ -374,7 +378,7 @@ CAMPAIGNS["recorded_suite"] = {"name": "recorded_suite", "kind": "recorded", "ti
                                "judge": ["BiomRecTrace.tla", "BiomRecTrace.cfg"]}
 
 CAMPAIGNS["subset_wide"] = model_campaign(
-    "subset_wide", palettes=TSVP, heaps="wide",       # more than 8 samples: remapping of larger index sets
+    "subset_wide", palettes=TSVP + [["trail", "plain"]], heaps="wide",       # more than 8 IDs: remapping of larger index sets
     quick=[ex(ph(["subset_read"], False, "r"))],
     thorough=[ex(ph(["subset_read"], False, "r")), ex(ph(LAYOUT, pick=6), ph(["subset_read"], False, "r"))])
 
